@@ -13,7 +13,7 @@ CONSTANTS
   BigSize = 4
   SetFees <- SetFeesMC
 INIT Init
-NEXT NextMut
+NEXT Next
 VIEW View0
 INVARIANTS TypeOK RefsOK NaiveOK SnapOK OrderingSatisfiable
 PROPERTIES StagingOK TrimOK RemoveOK
